@@ -162,6 +162,7 @@ def run_one(scen: dict, keep: bool = False) -> dict:
     work = tempfile.mkdtemp(prefix="vh_b_")
     try:
         scen = dict(scen, workdir=work)
+        scen["_deps"] = {str(i): sorted(set(_deps_of(c))) for i, c in enumerate(scen["calls"])}
         sp = os.path.join(work, "scen.json")
         op = os.path.join(work, "out.json")
         json.dump(scen, open(sp, "w"))
@@ -305,6 +306,13 @@ def judge(model, scen: dict, out: dict) -> dict:
                         oracles.append({"oracle": "exception_args", "i": i, "got": r, "expected": want})
             elif r["state"] in ("pending", "running"):
                 oracles.append({"oracle": "lost_future", "i": i, "got": r})
+        # ---- starvation probe (scenarios that set "starvation_probe": workers are free by construction): the script waited for a
+        # call whose inputs had all finished, and gave up
+        if scen.get("starvation_probe"):
+            for cmd in obs.get("cmds", []):
+                if cmd["c"] == "await" and cmd.get("gave_up") and cmd.get("inputs_done") and all(cmd["inputs_done"]):
+                    oracles.append({"oracle": "await_starved", "i": cmd.get("i"), "awaited_for_s": round(cmd.get("awaited_for", 0), 2),
+                                    "detail": "all inputs of the call were finished, a worker was free, yet the call was not handed on"})
         # ---- after shutdown(wait=True): all done, no processes (C02/C12); shutdown raised only a call's exception (C05)
         for cmd in obs.get("cmds", []):
             if cmd["c"] == "shutdown":
